@@ -868,6 +868,12 @@ def special_c09(res, tier, seed, workdir, stats):
 # ---------------------------------------------------------------- C08
 def special_c08(res, tier, seed, workdir, stats):
     """static release claim: the #[no_panic] wrappers around every public operation must link"""
+    # the symbolic executor treats every slice index, range, split_at and copy_from_slice with its std bounds rule and turns a
+    # would-be panic into "not translated": the byte-level functions being translated for EVERY pending length / clamped
+    # count means none of those panic points is reachable in them (overflow checks are HH/PortablePanic.lean's part)
+    core_translation(res, tier, seed, workdir, stats, pid="C08", only=["data_to_lanes", "remainder", "update_remainder", "checkpoint", "from_checkpoint", "unordered_load3"])
+    if isinstance(res.cov.get("source_translation"), dict):
+        res.cov["source_translation"]["meaning_for_this_property"] = "no out-of-bounds index / range / split_at / length-mismatched copy is reachable in these functions for any pending length (a would-be panic makes the function 'not translated')"
     cdir = os.path.join(hh.ROOT, "harness", "nopanic")
     lock = os.path.join(cdir, "Cargo.lock")
     if not os.path.exists(lock):
